@@ -523,6 +523,9 @@ func main() {
 				if tier != "thorough" && di >= 5 {
 					hi = 20001 // generated definitions: full range only in the thorough tier
 				}
+				if tier == "thorough" && di < 5 {
+					hi = 2000001 // the built-in unit sets: every integer up to two million
+				}
 				for lo := int64(0); lo < hi; lo += step {
 					h := lo + step
 					if h > hi {
@@ -561,7 +564,7 @@ func main() {
 			}
 			return res.Findings
 		},
-		Rule: "5 built-in unit sets + 18 generated definitions (multipliers over {2,10,60,1000}; names that are prefixes of each other; names with regexp metacharacters; names with a space inside) x {every integer in [0,200000] (generated definitions: [0,20000] in the quick tier), powers of ten +-1 up to 10^18, multiplier boundaries, 2^63-1; floats k/8 for k<=4000, k*10^e and k*10^-e down to 10^-12; every well-formed string of 1-3 strictly descending components with counts from {0,1,9,10,59,60,61,100} in 4 name/spacing variants; 14 near misses incl. 64-bit overflow; every string also through IntSchema / FloatSchema carrying the units (must agree with the units' parser); bare digit strings with leading zeros, base prefixes and separators}; every case distinct. First use: for every definition, every pair over {ParseInt, FormatShortInt, FormatLongInt, ParseFloat} issued by two threads on one fresh definition under the cooperative scheduler (sync shim + access events on schema/), all schedules with <= 2 preemptions: vector-clock race scan and results equal to a single caller's",
+		Rule: "5 built-in unit sets + 18 generated definitions (multipliers over {2,10,60,1000}; names that are prefixes of each other; names with regexp metacharacters; names with a space inside) x {every integer in [0,200000] (generated definitions: [0,20000] in the quick tier; built-in sets: [0,2000000] in the thorough tier), powers of ten +-1 up to 10^18, multiplier boundaries, 2^63-1; floats k/8 for k<=4000, k*10^e and k*10^-e down to 10^-12; every well-formed string of 1-3 strictly descending components with counts from {0,1,9,10,59,60,61,100} in 4 name/spacing variants; 14 near misses incl. 64-bit overflow; every string also through IntSchema / FloatSchema carrying the units (must agree with the units' parser); bare digit strings with leading zeros, base prefixes and separators}; every case distinct. First use: for every definition, every pair over {ParseInt, FormatShortInt, FormatLongInt, ParseFloat} issued by two threads on one fresh definition under the cooperative scheduler (sync shim + access events on schema/), all schedules with <= 2 preemptions: vector-clock race scan and results equal to a single caller's",
 		Assumptions: []string{
 			"ambiguous inputs are outside the alphabet: bare numbers without a unit name, decimal counts, negative quantities",
 			"float tolerance 1e-6 absolute + 1e-9 relative (the formatter prints 6 decimals)",
